@@ -187,7 +187,7 @@ func (rd *ReorgDetector) detectReorgInTrackedList(ctx context.Context) error {
 
 		errGroup.Go(func() error {
 			headers := hdrs.getSorted()
-			for _, hdr := range headers {
+			for i, hdr := range headers {
 				// Get the actual header from the network or from the cache
 				var err error
 				headersCacheLock.Lock()
@@ -231,13 +231,15 @@ func (rd *ReorgDetector) detectReorgInTrackedList(ctx context.Context) error {
 					rd.network, event.SubscriberID, event.FromBlock, event.ToBlock, event.CurrentHash, event.TrackedHash)
 				// Notify the subscriber about the reorg
 				rd.notifySubscriber(id, hdr)
-				// Remove the reorged block and all the following blocks from DB
-				if err := rd.removeTrackedBlockRange(event.SubscriberID, event.FromBlock, event.ToBlock); err != nil {
+				// Remove the reorged block and all the following blocks that were tracked when the reorg was
+				// detected, from DB and from memory. By now the subscriber has processed the reorg and may
+				// already be tracking blocks of the new fork with the same numbers: those must stay tracked,
+				// so only the entries with the old hashes are removed
+				if err := rd.removeTrackedBlocks(event.SubscriberID, headers[i:]); err != nil {
 					return fmt.Errorf("error removing blocks from DB for subscriber %s between blocks %d and %d: %w",
 						event.SubscriberID, event.FromBlock, event.ToBlock, err)
 				}
-				// Remove the reorged block and all the following blocks from memory
-				hdrs.removeRange(event.FromBlock, event.ToBlock)
+				hdrs.removeHeaders(headers[i:])
 
 				break
 			}
